@@ -38,7 +38,7 @@ NoLoan == [on |-> FALSE, pl |-> "a", mut |-> FALSE, taint |-> 0, depth |-> 0, vi
    different ways apart in the explored state graph so that each way gets its own programs *)
 InitVal == [pl \in Places |-> CASE pl = "a" -> 1 [] pl = "p.X" -> 2 [] pl = "p.Y" -> 3 [] pl = "arr[0]" -> 5
                                    [] OTHER -> 6]
-S0 == [loan |-> [r \in Refs |-> NoLoan], val |-> InitVal, out |-> <<>>, bad |-> 0, depth |-> 0, n |-> 0, clo |-> ""]
+S0 == [loan |-> [r \in Refs |-> NoLoan], val |-> InitVal, out |-> <<>>, bad |-> 0, depth |-> 0, n |-> 0, clo |-> "", cloAfter |-> FALSE]
 
 (* taint levels / verdict levels: 0 none, 1 only by the array-element rule, 2 definite *)
 Max(x, y) == IF x >= y THEN x ELSE y
@@ -72,7 +72,10 @@ Step(s0, e) ==
       [] e.k = "wr"  -> LET s1 == Access(s, e.pl, TRUE, "") IN [s1 EXCEPT !.val[e.pl] = e.v]
       [] e.k = "tm"  -> LET s1 == Access(s, e.pl, TRUE, "") IN [s1 EXCEPT !.val[e.pl] = 5]      \* mutI stores 5
       [] e.k = "ts"  -> LET s1 == Access(s, e.pl, FALSE, "") IN [s1 EXCEPT !.out = Append(@, s.val[e.pl])]
-      [] e.k = "cdef" -> [s EXCEPT !.clo = e.pl]          \* let f := fn() -> i32 { return pl; };  creating it accesses nothing
+      [] e.k = "cdef" -> [s EXCEPT !.clo = e.pl,         \* let f := fn() -> i32 { return pl; };  creating it accesses nothing
+                                   !.cloAfter = \E r \in Refs : s.loan[r].on /\ Overlap(s.loan[r].pl, e.pl) = 2]
+                         \* (cloAfter: the literal was created while a reference to that place existed -- no part of the
+                         \*  judgment; it keeps the two orders of borrowing and creating apart in the explored graph)
       [] e.k = "ccall" -> IF s.clo = "" THEN s            \* print f():  a read of the captured place, at the time of the call
                           ELSE LET s1 == Access(s, s.clo, FALSE, "") IN [s1 EXCEPT !.out = Append(@, s.val[s.clo])]
       [] e.k = "open" -> [s EXCEPT !.depth = @ + 1]
@@ -131,7 +134,7 @@ Next == /\ Len(hist) < MaxLen
 Spec == Init /\ [][Next]_hist
 
 (* the abstract state that decides everything that can still happen *)
-Abs(es) == LET s == RunFrom(S0, es, 1) IN <<s.loan, s.bad, s.clo, OpenBlocks(es), InLoop(es),
+Abs(es) == LET s == RunFrom(S0, es, 1) IN <<s.loan, s.bad, s.clo, s.cloAfter, OpenBlocks(es), InLoop(es),
                                             IF InLoop(es) THEN es ELSE <<>>, {r \in Refs : EverDeclared(es, r)}>>
 View == Abs(hist)
 
